@@ -335,12 +335,19 @@ def do_check(a):
 
     # ---- lock
     lock_key = prop if tier == "quick" else prop + ":thorough"
-    locked = lock.get(lock_key, [])
+    # the thorough tier generates a superset of the quick tier's obligations
+    locked = sorted(set(lock.get(lock_key, [])) | set(lock.get(prop, [])))
     if a.relock:
-        lock[lock_key] = sorted(obligations)
+        import fcntl
+
         os.makedirs(os.path.dirname(LOCK), exist_ok=True)
-        with open(LOCK, "w") as fh:
-            json.dump(lock, fh, indent=0, sort_keys=True)
+        with open(LOCK + ".guard", "w") as guard:  # concurrent checks of other properties re-lock too
+            fcntl.flock(guard, fcntl.LOCK_EX)
+            lock = load_lock()
+            lock[lock_key] = sorted(obligations)
+            with open(LOCK + ".tmp", "w") as fh:
+                json.dump(lock, fh, indent=0, sort_keys=True)
+            os.replace(LOCK + ".tmp", LOCK)
         locked = lock[lock_key]
         print(f"relocked {len(locked)} obligations for {prop}")
     if not a.only:
